@@ -54,8 +54,8 @@ func (s *Server) manifestDelete(repoStr, arg string) http.HandlerFunc {
 			_ = types.ErrRespJSON(w, types.ErrInfoManifestUnknown("tag or digest was not found in repository"))
 			return
 		}
-		// if referrers is enabled, remove entry from the referrers list
-		if *s.conf.API.Referrer.Enabled {
+		// if referrers is enabled and the manifest itself is deleted (not only a tag), remove entry from the referrers list
+		if *s.conf.API.Referrer.Enabled && !types.RefTagRE.MatchString(arg) {
 			// wrap in a func to allow a return from errors without breaking the actual delete
 			err = func() error {
 				rdr, err := repo.BlobGet(desc.Digest)
